@@ -13,8 +13,7 @@ M = [
  ("m02a", ["C02"], "field_build_context.go", "\tv, ok := c.config.NameOverrides[c.GetPath()]\n\tif !ok {\n\t\tv, ok = c.config.NameOverrides[c.GetNameWithTypeName()]\n\t}\n\n\tif ok {\n\t\treturn v\n\t}\n\n\tn := c.field.GetJSONName()\n\tif n != \"\" {\n\t\treturn n\n\t}\n",
   "\tn := c.field.GetJSONName()\n\tif n != \"\" {\n\t\treturn n\n\t}\n\n\tv, ok := c.config.NameOverrides[c.GetPath()]\n\tif !ok {\n\t\tv, ok = c.config.NameOverrides[c.GetNameWithTypeName()]\n\t}\n\n\tif ok {\n\t\treturn v\n\t}\n", "json tag takes precedence over name_overrides"),
  ("m02b", ["C02"], "field_descriptor_proto_ext.go", "\t\tif j[0] != \"-\" {\n\t\t\treturn j[0]\n\t\t}\n", "\t\treturn j[0]\n", "json tag '-' is used as attribute name"),
- ("m03a", ["C03"], "gen_copy_to.go", "\t\t\tj.Id(\"Attrs\"):     j.Make(j.Map(j.String()).Id(f.i.WithPackage(Attr, \"Value\")), j.Len(j.Id(\"o.AttrTypes\"))),\n\t\t\tj.Id(\"AttrTypes\"): j.Id(\"o.AttrTypes\"),\n",
-  "\t\t\tj.Id(\"Attrs\"): j.Make(j.Map(j.String()).Id(f.i.WithPackage(Attr, \"Value\")), j.Len(j.Id(\"o.AttrTypes\"))),\n", "new nested / element objects are built without AttrTypes"),
+ ("m03a", ["C03"], "gen_copy_to.go", "\t\t\tj.Id(\"AttrTypes\"): j.Id(\"o.AttrTypes\"),\n", "\t\t\tj.Id(\"AttrTypes\"): j.Id(\"tf.AttrTypes\"),\n", "new nested / element objects carry the attribute types of the enclosing object"),
  ("m04a", ["C04", "C20", "C19"], "gen_copy_to.go", "\t\t\t\tg.If(j.Len(j.Id(fieldName))).Op(\">\").Lit(0).Block(", "\t\t\t\tg.If(j.Len(j.Id(fieldName))).Op(\">\").Lit(1).Block(", "single-element lists/maps are rendered null by CopyTo into an empty object"),
  ("m05a", ["C05"], "gen_copy_from.go", "\tg.If(j.Id(\"!v.Null && !v.Unknown\")).BlockFunc(func(g *j.Group) {\n\t\tif !f.IsNullable {\n\t\t\t// obj.Float = float32(v.Value)",
   "\tg.If(j.Id(\"!v.Null\")).BlockFunc(func(g *j.Group) {\n\t\tif !f.IsNullable {\n\t\t\t// obj.Float = float32(v.Value)", "unknown scalars are read from their payload"),
